@@ -364,3 +364,22 @@ M('c16-disallowed-chars-pattern-without-fffd', 'C16', 'R11', ST, "\\x9f\\ufffd~"
 M('c16-disallowed-chars-test-skipped-with-fallback', 'C16', 'R11', ST,
   "            or self._DISALLOWED_CHARS_PATTERN.search(without_prefix)\n",
   "            or (self._fallback_filename is None and self._DISALLOWED_CHARS_PATTERN.search(without_prefix))\n")
+
+# ---------------------------------------------------- R12 Range decision table (shared with C09 R6; seeded change s9-c16-3)
+M('c16-range-one-byte-rejected', 'C16', 'R12', REQ, "                if last_num < first_num:", "                if last_num <= first_num:", also=('C09',))
+M('c16-range-one-byte-rejected-swapped-operands', 'C16', 'R12', REQ, "                if last_num < first_num:", "                if first_num >= last_num:", also=('C09',))
+M('c16-range-open-ended-last-zero', 'C16', 'R12', REQ, "first_num, last_num = (int(first), -1)", "first_num, last_num = (int(first), 0)", also=('C09',))
+# ---------------------------------------------------- R13 the range unit is the whole text before the first '=' (seeded change s9-c16-1)
+_UNIT = "        if value and '=' in value:\n            unit, sep, req_range = value.partition('=')\n            return unit\n"
+M('c16-range-unit-bytes-prefix-fast-path', 'C16', 'R13', REQ, _UNIT,
+  "        if value.startswith('bytes'):\n            return 'bytes'\n\n" + _UNIT)
+M('c16-range-unit-bytes-substring-fast-path', 'C16', 'R13', REQ, _UNIT,
+  "        if 'bytes' in value:\n            return 'bytes'\n\n" + _UNIT)
+M('c16-range-unit-prefix-test-on-unit', 'C16', 'R13', REQ, _UNIT,
+  "        if value and '=' in value:\n            unit, sep, req_range = value.partition('=')\n            if unit.startswith('bytes'):\n"
+  "                return 'bytes'\n            return unit\n")
+M('c16-range-unit-before-last-separator', 'C16', 'R13', REQ, _UNIT,
+  "        if value and '=' in value:\n            unit, sep, req_range = value.rpartition('=')\n            return unit\n")
+M('c16-static-unit-prefix-test', 'C16', 'R13', ST, "req.range if req.range_unit == 'bytes' else None", "req.range if (req.range_unit or '').startswith('bytes') else None")
+M('c16-static-unit-never-consulted', 'C16', 'R13', ST, "req.range if req.range_unit == 'bytes' else None", "req.range")
+# negative controls verified by hand with --root (silent): see fixer report (wave 9)
